@@ -646,3 +646,53 @@ Proof.
   rewrite S2 in D1. rewrite S1 in D2. inversion D1; inversion D2; subst.
   apply corr_sym.
 Qed.
+
+(* ---- an ID given twice with --id ------------------------------------------------------------------------ *)
+
+Lemma dedup_in x l : In x (dedup l) <-> In x l.
+Proof.
+  induction l as [|a r IH]; [tauto|]. cbn [dedup In]. rewrite filter_In, IH.
+  destruct (Z.eq_dec x a) as [->|NE].
+  - tauto.
+  - rewrite negb_true_iff, Z.eqb_neq. split; [intros [E|[H _]]; [subst; tauto|tauto]|].
+    intros [E|H]; [subst; contradiction|]. right. tauto.
+Qed.
+
+Lemma dedup_nodup l : NoDup (dedup l).
+Proof.
+  induction l as [|a r IH]; [constructor|]. cbn [dedup]. constructor.
+  - intro K. apply filter_In in K. destruct K as [_ K]. rewrite Z.eqb_refl in K. discriminate.
+  - apply NoDup_filter. exact IH.
+Qed.
+
+(* with the repaired entry point every requested item is listed exactly once even when
+   --id repeats it *)
+Lemma requested_listed_once_cli target gs lines keep ids fg rows :
+  calc_ld_cli false target gs lines keep ids fg = Ok rows ->
+  NoDup (hap_ids lines) -> NoDup (var_ids gs) ->
+  NoDup (map fst rows) /\
+  forall id, req_in ids id ->
+    (if fg then In id (var_ids gs) else In id (hap_ids lines) /\ id <> target) -> In id (map fst rows).
+Proof.
+  unfold calc_ld_cli. intros H NH NV.
+  destruct (requested_listed_once _ _ _ _ _ _ _ H NH NV) as [ND L].
+  { destruct ids as [l|]; cbn [option_map]; [apply dedup_nodup|exact I]. }
+  split; [exact ND|]. intros id R. apply L.
+  destruct ids as [l|]; cbn [option_map req_in] in *; [apply dedup_in; exact R|exact I].
+Qed.
+
+(* the tree before fixes/C16_repeated_id.patch: `--from-gts -i v -i v` with a haplotype target
+   lists variant v twice *)
+Definition witness16_dup : lcase :=
+  mkl 5 [mkgv 0 0 1 [(0, 1); (1, 1); (0, 0)] []; mkgv 1 0 1 [(0, 0); (1, 1); (0, 1)] []]
+      [HL (mkhap 5 [(0, 1)])] [true; true; true] (Some [1; 1]) true
+      (Ok [(1, Some 500); (1, Some 500)]) None.
+
+Lemma legacy_dup_refuted :
+  wf witness16_dup = true
+  /\ option_map (map fst) (match calc_ld false 5 (l_gs witness16_dup) (l_lines witness16_dup)
+                                 (l_keep witness16_dup) (l_ids witness16_dup) true with
+                           | Ok r => Some r | Err _ => None end) = Some [1; 1]
+  /\ holds_ld witness16_dup = false
+  /\ option_map (map fst) (match model_ld witness16_dup with Ok r => Some r | Err _ => None end) = Some [1].
+Proof. vm_compute. repeat split; reflexivity. Qed.
